@@ -656,7 +656,8 @@ class SmtLibParser(object):
     def _division(self, left: FNode, right: FNode) -> FNode:
         """Utility function that builds a division"""
         mgr = self.env.formula_manager
-        if left.is_constant() and right.is_constant() and \
+        if (left.is_int_constant() or left.is_real_constant()) and \
+           (right.is_int_constant() or right.is_real_constant()) and \
            right.constant_value() != 0:
             return mgr.Real(Fraction(left.constant_value()) /
                             Fraction(right.constant_value()))
